@@ -261,6 +261,18 @@ Theorem C16_interp_dependencies_persist :
 Proof. exact recorded_dependencies_persist. Qed.
 Print Assumptions C16_interp_dependencies_persist.
 
+(* The converse: nothing is recorded without a cell.  Every dependency a run adds between a visible
+   table and a visible field is backed by a reference cell of a row it wrote; so a field that never
+   held a reference in any written row is not made a lookup by this run ("a plain field otherwise"). *)
+Theorem C16_interp_recorded_dependencies_backed :
+  forall e stmts c k s0 s,
+    iterations k e stmts c s0 = Ok s ->
+    forall T U f, In (T, U, f) (Interp.deps s) ->
+      In (T, U, f) (Interp.deps s0) \/ Interp.hidden T = true \/ Interp.hidden f = true \/
+      exists row i, In row (Interp.out s) /\ fst row = T /\ In (f, ORef U i) (snd row).
+Proof. exact recorded_dependencies_backed. Qed.
+Print Assumptions C16_interp_recorded_dependencies_backed.
+
 (* non-vacuity: a forward reference, a nested object and a friend pointing back at its parent *)
 Example C16_interp_ex :
   match run_fresh (mkRecipe 3 []
